@@ -75,7 +75,7 @@ const c07forged = uint64(1) << 63 // history entries with this bit carry a wrong
 func c07runHistory(rep *vh.Report, keyRaw []byte, key *frame.V2Key, hist []uint64, frames map[uint64][]byte) {
 	rep.Eval(1)
 	var stream []byte
-	for _, ent := range hist {
+	for hi, ent := range hist {
 		ts := ent &^ c07forged
 		if ent&c07forged != 0 {
 			s := &ref.FrameSpec{Version: 2, Incompat: 1, Signed: true, Seq: byte(ts), Sys: 1, Comp: 1, MsgID: 0x54321, LinkID: 1, Payload: []byte{1, 2, 3, 4}, Timestamp: ts}
@@ -84,14 +84,23 @@ func c07runHistory(rep *vh.Report, keyRaw []byte, key *frame.V2Key, hist []uint6
 			stream = append(stream, ref.Serialize(s)...)
 			continue
 		}
-		w, ok := frames[ts]
+		// the author of a frame (system, component, link id) varies independently of its timestamp: three authors take turns
+		// on the link, each of them far behind or ahead of the others at times. The window is the reader's, whoever signs
+		variant := uint64((hi*5 + len(hist)) % 3)
+		if len(hist)%3 == 0 {
+			variant = 3 // (a third of the histories: the link id follows the timestamp, one system)
+		}
+		w, ok := frames[ts<<2|variant]
 		if !ok {
 			s := &ref.FrameSpec{Version: 2, Incompat: 1, Signed: true, Seq: byte(ts), Sys: 1, Comp: 1, MsgID: 0x12345 ^ uint32(ts&0xFF), LinkID: byte(ts >> 3),
 				Payload: []byte{byte(ts), byte(ts >> 8), 7}, Timestamp: ts}
+			if variant < 3 {
+				s.Sys, s.Comp, s.LinkID = byte(1+variant), byte(1+variant%2), byte(10*variant)
+			}
 			s.Signature = ref.SignatureOfWire(keyRaw, ref.Serialize(s))
 			w = ref.Serialize(s)
-			if len(frames) < 4096 {
-				frames[ts] = w
+			if len(frames) < 8192 {
+				frames[ts<<2|variant] = w
 			}
 		}
 		stream = append(stream, w...)
@@ -203,6 +212,44 @@ func TestC07(t *testing.T) {
 	keyRaw := r.Bytes(32)
 	key := mkKey(keyRaw)
 	frames := map[uint64][]byte{}
+	// what the reader remembers does not fade with (real) time: a link that was silent for 31 s still refuses a frame that
+	// is more than 10 s of timestamp older than the newest one accepted before the silence. Runs in the second child
+	// process only, next to everything else (its 31 s are the wall time of that child)
+	silenceDone := make(chan struct{})
+	if os.Getenv("VERIF_SHARD") == "1" || os.Getenv("VERIF_NSHARDS") == "" {
+		go func() {
+			defer close(silenceDone)
+			mk := func(ts uint64) []byte {
+				s := &ref.FrameSpec{Version: 2, Incompat: 1, Signed: true, Seq: byte(ts), Sys: 7, Comp: 1, MsgID: 0x4321, LinkID: 2, Payload: []byte{1, 2, 3}, Timestamp: ts}
+				s.Signature = ref.SignatureOfWire(keyRaw, ref.Serialize(s))
+				return ref.Serialize(s)
+			}
+			var buf bytes.Buffer
+			rd := &frame.Reader{ByteReader: &buf, InKey: mkKey(keyRaw)}
+			if rd.Initialize() != nil {
+				return
+			}
+			buf.Write(mk(50000000))
+			if _, err := rd.Read(); err != nil {
+				return
+			}
+			time.Sleep(31 * time.Second)
+			buf.Write(mk(50000000 - 2000000))
+			_, err := rd.Read()
+			rep.Eval(1)
+			rep.Count("replay_after_31s_of_silence_checked", 1)
+			if err == nil {
+				rep.Violation("what=reader after-silence", "after 31 s without traffic the reader accepted a correctly signed frame whose timestamp is 20 s older than the newest one it had accepted before", nil)
+			}
+			buf.Write(mk(50000000 + 1))
+			if _, err := rd.Read(); err != nil {
+				rep.Violation("what=reader after-silence", "after 31 s without traffic the reader refused a frame newer than everything it had accepted: "+err.Error(), nil)
+			}
+		}()
+	} else {
+		close(silenceDone)
+	}
+	defer func() { <-silenceDone }()
 
 	alpha := []uint64{0, 1, 5, 999999, 1000000, 1000001, 1999999, 2000000, 2000001, 1 << 32, (1 << 48) - 1000001, (1 << 48) - 1,
 		3000001 | c07forged, (1 << 47) | c07forged} // two frames with a wrong signature: refused, no effect on the window
